@@ -7,6 +7,7 @@ package fiber
 import (
 	"errors"
 	"sync"
+	"time"
 
 	"github.com/gofiber/fiber/v3/binder"
 	"github.com/gofiber/utils/v2"
@@ -299,6 +300,15 @@ func (r *Redirect) parseAndClearFlashMessages() {
 	// parse flash messages
 	cookieValue := r.c.Cookies(FlashCookieName)
 	raw := r.c.app.getBytes(cookieValue)
+
+	// Flash data is shown once: tell the client to drop the cookie. A handler that
+	// redirects with new messages overrides this with the new cookie.
+	r.c.Cookie(&Cookie{
+		Name:    FlashCookieName,
+		Path:    "/", // the cookie is issued for "/": the expiry must name the same path, whatever path consumes it
+		Expires: time.Now().Add(-24 * time.Hour),
+		MaxAge:  -1,
+	})
 
 	// Every message takes at least one byte, so a header announcing more messages
 	// than there are bytes left cannot be valid: do not allocate for it.
